@@ -18,8 +18,11 @@ import CpModel.HeaderEnc
     `repr(bytes)[2:-1]` (CPython's quote-style choice included), then `'\\\\'` → `'\\'`; and the
     log line assembled with `access_log_format` (`accessLine`; pieces from the generated table).
 
-  Not modelled: custom `error_page` callables/templates (F2 is exercised by the harness only),
-  tracebacks (the traceback text is an input), `logging` record formatting.
+  * the message `get_error_page` builds when a custom `error_page` callable/template FAILED
+    (`failedMessage`, repaired form: the exception text is escaped — F2).
+
+  Not modelled: what a working custom `error_page` callable/template returns (it replaces the
+  built-in page), tracebacks (the traceback text is an input), `logging` record formatting.
 -/
 namespace CpModel.Escape
 open CpModel.Gen.C12
@@ -118,6 +121,32 @@ def errorPage (status message traceback version : Text) : Option Text :=
 
 def errorPageBytes (status message traceback version : Text) : Option Bytes :=
   (errorPage status message traceback version).map utf8
+
+/-! ### the page when the custom error page failed (REPAIRED, fix C12-error-page-failure-escape) -/
+
+def brTag : Text := ['<', 'b', 'r', ' ', '/', '>']
+
+/-- `'In addition, the custom error page failed:\n'` -/
+def failedSentence : Text := "In addition, the custom error page failed:\n".toList
+
+/-- the message field after the `except Exception:` branch of `get_error_page`: the already
+    escaped message, `<br />` if it is non-empty, the fixed sentence, `<br />`, and the last line
+    of the formatted exception — escaped (before the fix it was inserted as it is).
+    Marked: `true` = literal markup/text of the code, `false` = from `message` / the exception. -/
+def failedMessageMarked (message e : Text) : List (Char × Bool) :=
+  let m := htmlEscape message
+  (if m = [] then [] else m.map (·, false) ++ brTag.map (·, true))
+    ++ failedSentence.map (·, true) ++ brTag.map (·, true) ++ (htmlEscape e).map (·, false)
+
+def failedMessage (message e : Text) : Text := (failedMessageMarked message e).map Prod.fst
+
+/-- the page bytes `get_error_page` returns when the custom error page raised an exception whose
+    last formatted line is `e` (the other three fields are escaped as usual) -/
+def errorPageFailed (status message traceback version e : Text) : Option Text :=
+  render id
+    [(kStatus, htmlEscape status), (kMessage, failedMessage message e),
+     (kTraceback, htmlEscape traceback), (kVersion, htmlEscape version)]
+    (toPieces errorTemplate)
 
 /-! ### redirect page -/
 
